@@ -3,7 +3,8 @@
 
    Vocabulary.  A trace `es : list event` is any sequence of: Subprocess creations (ESpawn pid), child terminations
    with a wait status (EExit pid st), SIGCHLD deliveries (ESigchld — one delivery may stand for several coalesced
-   signals), set_exit_callback / wait_for_exit calls on object number sid (EReg / EWait) and IOLoop turns (ELoop).
+   signals), set_exit_callback / wait_for_exit calls on object number sid (EReg / EWait), IOLoop turns (ELoop) and
+   Subprocess.initialize() / uninitialize() calls (EInit / EUninit).
    `run es` is the state of the model of tornado/process.py after the trace.  `wf es`: the pids handed out are
    pairwise distinct (rely condition on the kernel).  `after_spawn sid es = Some (p, r)`: object sid was created
    with pid p and r is the rest of the trace after its creation; `first_exit p r` is the status of the child's
@@ -37,7 +38,8 @@ Print Assumptions C42_decode_total.
 (* ---- non-interference: each object of the shared world is the one-child automaton ---- *)
 (* For every trace with distinct pids and every object: its fields, the kernel's entry for its pid, its entry in
    Subprocess._waiting, its pending IOLoop calls (_set_returncode / late callbacks) and its part of the log are exactly those of the
-   one-child specification `track` — whatever the other children, their exits, registrations and callbacks do. *)
+   one-child specification `track` — whatever the other children, their exits, registrations and callbacks do.  The
+   only shared state the object's life depends on is one bit: whether the SIGCHLD handler is installed. *)
 Theorem C42_objects_do_not_interfere : forall es sid c, wf es = true -> track sid es = Some c ->
   let w := run es in let p := s_pid (c_sub c) in
   nth_error (w_subs w) sid = Some (c_sub c) /\
@@ -47,7 +49,7 @@ Theorem C42_objects_do_not_interfere : forall es sid c, wf es = true -> track si
   calls_of sid (w_log w) = c_calls c.
 Proof.
   intros es sid c W T. destruct (projection es W) as [_ [_ P]]. specialize (P sid). rewrite T in P.
-  destruct P as [[A B C D _] E]. repeat split; assumption.
+  destruct P as [[A B C D] E]. repeat split; assumption.
 Qed.
 Print Assumptions C42_objects_do_not_interfere.
 
@@ -80,22 +82,53 @@ Print Assumptions C42_nothing_reported_before_the_child_exits.
 
 (* ---- exactly once, for every ordering of exit vs registration ---- *)
 (* (A) The object is registered and its child exits, in EITHER order, anywhere in r1 (interleaved with any other
-   events: other children, earlier SIGCHLDs, loop turns, re-registrations); then a SIGCHLD is delivered (one
-   delivery serves every child that died so far); then the IOLoop runs.  Then — whatever follows (r4) — the log of
-   this object starts with the invocation of a callback registered on it, with decode(st); returncode is set; the
-   future behind that callback holds the value / CalledProcessError by wait_for_exit's rule.  (Anything after that
-   first entry comes from registrations made after the report: see C42_late_registration_fires.) *)
-Theorem C42_exactly_once_any_order : forall es0 p r1 r2 r3 r4 sid st,
-  let r := r1 ++ r2 ++ r3 ++ r4 in
+   events: other children, earlier SIGCHLDs, loop turns, re-registrations, initialize/uninitialize); then a SIGCHLD is
+   delivered while the handler is installed (one delivery serves every child that died so far); then the IOLoop runs
+   (somewhere in r3).  Then — whatever follows (r4) — the log of this object starts with the invocation of a callback
+   registered on it, with decode(st); returncode is set; the future behind that callback holds the value /
+   CalledProcessError by wait_for_exit's rule.  (Anything after that first entry comes from registrations made after
+   the report: see C42_late_registration_fires.) *)
+Theorem C42_exactly_once_any_order : forall es0 p r1 r3 r4 sid st,
+  let r := r1 ++ ESigchld :: r3 ++ r4 in
   let es := es0 ++ ESpawn p :: r in
   wf es = true -> count_spawns es0 = sid ->
-  first_exit p r1 = Some st -> (exists e, In e r1 /\ is_reg_of sid e) -> In ESigchld r2 -> In ELoop r3 ->
+  first_exit p r1 = Some st -> (exists e, In e r1 /\ is_reg_of sid e) ->
+  w_init (run (es0 ++ ESpawn p :: r1)) = true -> In ELoop r3 ->
   exactly_once es sid r st.
 Proof. exact exactly_once_A. Qed.
 Print Assumptions C42_exactly_once_any_order.
 
+(* ONE SIGCHLD serves EVERY registered child that has died, however many there are (signals coalesce): after a
+   single delivery and one loop turn each of them has been reported. *)
+Theorem C42_one_sigchld_serves_all_children : forall es, wf es = true -> w_init (run es) = true ->
+  forall sid p r c st, after_spawn sid es = Some (p, r) -> track sid es = Some c ->
+    c_ph c = PhZombie st -> c_inw c = true ->
+    exactly_once (es ++ [ESigchld; ELoop]) sid (r ++ [ESigchld; ELoop]) st.
+Proof. exact one_sigchld_serves_all. Qed.
+Print Assumptions C42_one_sigchld_serves_all_children.
+
+(* ---- the handler: initialize() / uninitialize() ---- *)
+(* It is installed by initialize() and by any set_exit_callback / wait_for_exit on an object whose exit has not been
+   reported; it stays installed until uninitialize(); without it a SIGCHLD changes nothing (the children that died
+   meanwhile are found by the next SIGCHLD after it is installed again, or by their own registration). *)
+Theorem C42_registration_installs_handler : forall es e sid sb,
+  nth_error (w_subs (run es)) sid = Some sb -> s_rc sb = None ->
+  (exists l, e = EReg sid l) \/ (exists l re, e = EWait sid l re) -> w_init (run (es ++ [e])) = true.
+Proof. exact registration_installs_handler. Qed.
+Print Assumptions C42_registration_installs_handler.
+
+Theorem C42_handler_stays_installed : forall a b,
+  w_init (run a) = true -> ~ In EUninit b -> w_init (run (a ++ b)) = true.
+Proof. exact handler_stays_installed. Qed.
+Print Assumptions C42_handler_stays_installed.
+
+Theorem C42_sigchld_ignored_without_handler : forall es,
+  w_init (run es) = false -> run (es ++ [ESigchld]) = run es.
+Proof. exact sigchld_ignored_without_handler. Qed.
+Print Assumptions C42_sigchld_ignored_without_handler.
+
 (* (B) The child is already dead when the object is registered (its SIGCHLD was delivered before, coalesced,
-   or never): registration finds it at once, no signal is needed. *)
+   or never — seeded change C42_1): registration finds it at once, no signal and no handler is needed. *)
 Theorem C42_exactly_once_exit_before_registration : forall es0 p r1 r2 r3 r4 sid st,
   let r := r1 ++ r2 ++ r3 ++ r4 in
   let es := es0 ++ ESpawn p :: r in
@@ -143,10 +176,9 @@ Print Assumptions C42_log_is_calls_and_asserts_only.
    Then the callback labelled l has run with decode(st) and, for wait_for_exit(raise_error = re), its future holds
    the value / CalledProcessError by the rule.  Together with C42_each_registration_fires_at_most_once: exactly once.
    (Before the fix this was refuted: the late callback never ran and the object stayed in _waiting for ever.) *)
-Theorem C42_late_registration_fires : forall es1 e r2 r3 sid p r1 st rc l,
+Theorem C42_late_registration_fires : forall es1 e r2 r3 sid c1 st rc l,
   let es := es1 ++ e :: r2 ++ r3 in
-  wf es = true -> after_spawn sid es1 = Some (p, r1) ->
-  c_ph (fold_left (cstep sid) r1 (cinit p)) = PhReported st -> decode st = Some rc ->
+  wf es = true -> track sid es1 = Some c1 -> c_ph c1 = PhReported st -> decode st = Some rc ->
   reg_label sid e = Some l -> In ELoop r2 ->
   In (LCall sid l rc) (calls_of sid (w_log (run es))) /\
   forall re, e = EWait sid l re ->
